@@ -751,10 +751,16 @@ class XsdElement(XsdComponent, ParticleMixin,
             if content and len(content) == 1 and content[0][0] == 1:
                 value, content = content[0][1], None
 
-            if self.fixed is not None and \
-                    (len(obj) > 0 or value is not None and self.fixed != value):
-                reason = _("must have the fixed value %r") % self.fixed
-                context.validation_error(validation, self, reason, obj)
+            if self.fixed is not None:
+                if value is None and obj.text is not None:
+                    # blank character data is dropped from the decoded content
+                    fixed_value = str(obj.text.strip())
+                else:
+                    fixed_value = value
+
+                if len(obj) > 0 or fixed_value is not None and self.fixed != fixed_value:
+                    reason = _("must have the fixed value %r") % self.fixed
+                    context.validation_error(validation, self, reason, obj)
 
         else:
             if len(obj):
